@@ -337,19 +337,6 @@ Definition chk_C12 (t0 : N) (h : list iter) (tr : list out) : bool :=
   end.
 
 (* ------------------------------------------------------------------ schedules *)
-(* the environment never wakes the daemon later than it asked (it may wake it earlier, e.g.
-   for API calls) *)
-Fixpoint timely_from (s : state) (h : list iter) : bool :=
-  match h with
-  | [] => true
-  | it :: h' =>
-      if st_alive s
-      then match min_list (st_timers s) with Some w => i_now it <=? w | None => true end
-           && timely_from (fst (iterate s it)) h'
-      else true
-  end.
-Definition timely (t0 : N) (h : list iter) : bool := timely_from (init t0) h.
-
 (* the timer-exact silent schedule: n iterations, each exactly at the requested wake-up, no
    API call, no datagram *)
 Fixpoint silent_hist (s : state) (n : nat) : list iter :=
